@@ -242,7 +242,221 @@ def sh_glwe_norm(rng, big):
 OPS["glwe_normalize"] = (sh_glwe_norm, ALL, True, 2)
 
 
-USES_VMP = {o for o in OPS if o.startswith("vmp_") or any(w in o for w in ("keyswitch", "external_product", "automorphism", "trace", "cmux", "bdd"))}
+
+# ------------------------------------------------------------------------------------------------
+# table 3 (Model/ScratchOps2.lean)
+# ------------------------------------------------------------------------------------------------
+def sh_rank(rng, big):
+    return {"rank": rng.range(1, 3)}
+
+
+def sh_key(rin, rout, dsize1=False):
+    def gen(rng, big):
+        ri = rng.range(1, 2) if rin is None else rin
+        ro = rng.range(1, 2) if rout is None else rout
+        if rin == "same":
+            ri = ro
+        d = key_part(rng, big, ri, ro)
+        if dsize1:
+            d["dsize"] = 1
+            d["dnum"] = rng.range(1, d["ksize"])
+        d["nlwe"] = rng.range(1, 7)
+        return d
+    return gen
+
+
+def mat_part(rng, d, cross_with):
+    """result / input matrices (GGSW or GGLWE with dsize 1): sizes >= 2, dnum <= size"""
+    d["size"] = rng.range(2, 6)
+    d["asize"] = rng.range(2, 6)
+    d["rdnum"] = rng.range(1, 2)
+    d["adnum"] = rng.range(d["rdnum"], 2)
+    d["grin"] = rng.range(1, 2)
+    # the matrix forms assert res.base2k == a.base2k; cross-radix = different from the key's radix
+    d["b2k"] = rng.choice([x for x in RADICES if x != cross_with]) if rng.chance(1, 3) else cross_with
+    d["ab2k"] = d["b2k"]
+    return d
+
+
+def tsk_part(rng, d):
+    tdsize = rng.choice([1, 1, 2, 3])
+    d["tsize"] = rng.range(tdsize + 1, 7)
+    d["tdnum"] = rng.range(1, d["tsize"] // tdsize)
+    d["tdsize"] = tdsize
+    d["tb2k"] = rng.choice(RADICES) if rng.chance(1, 3) else d["b2k"]
+    return d
+
+
+def sh_gglwe_ks(rng, big):
+    d = key_part(rng, big, rng.range(1, 2), rng.range(1, 2))
+    mat_part(rng, d, d["kb2k"])
+    d["rank"], d["arank"] = d["krout"], d["krin"]
+    return d
+
+
+def sh_mat_same_rank(rng, big):
+    r = rng.range(1, 2)
+    d = key_part(rng, big, r, r)
+    mat_part(rng, d, d["kb2k"])
+    d["rank"] = d["arank"] = r
+    return d
+
+
+def sh_mat_assign(rng, big):
+    return sh_mat_same_rank(rng, big)
+
+
+def sh_expand(rng, big):
+    d = {"rank": rng.range(1, 2), "size": rng.range(2, 6), "b2k": rng.choice(RADICES), "rdnum": rng.range(1, 2)}
+    d.update({"asize": d["size"], "ab2k": d["b2k"], "adnum": d["rdnum"]})
+    return tsk_part(rng, d)
+
+
+def sh_ggsw_ks(rng, big):
+    d = sh_mat_same_rank(rng, big)
+    d["adnum"] = d["rdnum"]        # ggsw_keyswitch loops over a.dnum() rows of res
+    return tsk_part(rng, d)
+
+
+def sh_ggsw_ks_assign(rng, big):
+    d = sh_mat_assign(rng, big)
+    return tsk_part(rng, d)
+
+
+def sh_glwe_from_lwe(rng, big):
+    ro = rng.range(1, 2)
+    d = key_part(rng, big, 1, ro)
+    d["dsize"] = 1
+    d["dnum"] = rng.range(1, d["ksize"])
+    d.update({"rank": ro, "size": rng.range(1, 7), "b2k": rng.choice(RADICES), "lsize": rng.range(1, 7),
+              "lb2k": rng.choice(RADICES) if rng.chance(1, 3) else d["kb2k"], "nlwe": rng.range(1, 7)})
+    return d
+
+
+def sh_lwe_from_glwe(rng, big):
+    ri = rng.range(1, 2)
+    d = key_part(rng, big, ri, 1)
+    d["dsize"] = 1
+    d["dnum"] = rng.range(1, d["ksize"])
+    d.update({"arank": ri, "asize": rng.range(1, 7), "ab2k": rng.choice(RADICES) if rng.chance(1, 3) else d["kb2k"],
+              "lsize": rng.range(1, 7), "lb2k": rng.choice(RADICES), "nlwe": rng.range(1, 7), "idx": rng.choice([0, 0, 1, 3])})
+    return d
+
+
+def sh_lwe_ks(rng, big):
+    d = key_part(rng, big, 1, 1)
+    d["dsize"] = 1
+    d["dnum"] = rng.range(1, d["ksize"])
+    d.update({"lsize": rng.range(1, 7), "lb2k": rng.choice(RADICES), "alsize": rng.range(1, 7),
+              "alb2k": rng.choice(RADICES) if rng.chance(1, 3) else d["kb2k"], "nlwe": rng.range(1, 7)})
+    return d
+
+
+def sh_mul_const(rng, big):
+    ab2k = rng.choice(RADICES)
+    return {"rank": rng.range(0, 2), "size": rng.range(1, 7), "b2k": rng.choice(RADICES) if rng.chance(1, 3) else ab2k,
+            "asize": rng.range(1, 7), "ab2k": ab2k, "bsize": rng.range(1, 3), "off": rng.choice([0, ab2k - 1, ab2k, 2 * ab2k + 3])}
+
+
+def sh_mul_const_assign(rng, big):
+    d = sh_mul_const(rng, big)
+    d["b2k"] = d["ab2k"]
+    d["off"] = rng.choice([0, d["b2k"] - 1, d["b2k"], 2 * d["b2k"] + 3])
+    return d
+
+
+def sh_noise(rng, big):
+    return {"rank": rng.range(1, 2), "size": rng.range(2, 6), "b2k": rng.choice(RADICES), "rdnum": rng.range(1, 2), "grin": rng.range(1, 2),
+            "col": rng.range(0, 2)}
+
+
+def sh_pack(rng, big):
+    r = rng.range(1, 2)
+    d = key_part(rng, big, r, r)
+    d.update({"rank": r, "size": rng.range(1, 6), "b2k": rng.choice([x for x in RADICES if x != d["kb2k"]]) if rng.chance(1, 3) else d["kb2k"]})
+    return d
+
+
+def sh_relin(rng, big):
+    r = rng.range(1, 2)
+    d = {"rank": r, "size": rng.range(1, 6), "b2k": rng.choice(RADICES), "arank": r, "asize": rng.range(1, 6), "ab2k": rng.choice(RADICES)}
+    tsk_part(rng, d)
+    d["tb2k"] = d["ab2k"] if not rng.chance(1, 3) else rng.choice([x for x in RADICES if x != d["ab2k"]])
+    # with dsize > 1 the product resizes res_dft to the key's size: tsk_size < tsk.size() panics in set_size (not a scratch matter)
+    d["tskuse"] = d["tsize"] if d["tdsize"] > 1 else rng.range(max(1, d["tsize"] - 1), d["tsize"])
+    return d
+
+
+def sh_cswap(rng, big):
+    r = rng.range(1, 2)
+    d = key_part(rng, big, r, r)
+    # cross-radix cswap panics in glwe_sub (it subtracts the unconverted operands): same radix only
+    b2k = d["kb2k"]
+    d.update({"rank": r, "arank": r, "size": rng.range(1, 6), "asize": rng.range(1, 6), "b2k": b2k, "ab2k": b2k})
+    return d
+
+
+def sh_ckks_rot(rng, big):
+    d = sh_ks_assign(rng, big)
+    return d
+
+
+def sh_ckks_pt(rng, big):
+    b2k = rng.choice(RADICES)
+    return {"rank": 1, "size": rng.range(1, 7), "b2k": b2k, "arank": 1, "asize": rng.range(1, 7), "ab2k": b2k, "ptk": rng.range(1, 6 * b2k)}
+
+
+REF = ["fft64ref", "ntt120ref"]
+OPS.update({
+    "glwe_tensor_relinearize": (sh_relin, ALL, True, 8),
+    "cswap": (sh_cswap, ALL, True, 8),
+    "ckks_rotate": (sh_ckks_rot, REF, False, 8),
+    "ckks_pt_vec_znx": (sh_none, REF, False, 1),
+    "ckks_pt_vec_rnx": (sh_ckks_pt, REF, False, 1),
+    "ckks_extract_pt": (sh_none, REF, False, 1),
+    "ckks_encrypt_sk": (sh_glwe, REF, False, 1),
+    "ckks_decrypt": (sh_glwe, REF, False, 1),
+    "ckks_mul_pt_const": (sh_ckks_pt, REF, False, 1),
+    "glwe_noise": (sh_glwe, ALL, True, 2),
+    "gglwe_noise": (sh_noise, ALL, True, 2),
+    "ggsw_noise": (sh_noise, ALL, True, 2),
+    "glwe_tensor_decrypt": (sh_noise, ALL, True, 2),
+    "glwe_pack": (sh_pack, ALL, True, 8),
+    "glwe_packer_add": (sh_pack, ALL, True, 8),
+    "glwe_secret_tensor_prepare": (sh_rank, ALL, True, 2),
+    "glwe_switching_key_encrypt_sk": (sh_key(None, None), ALL, True, 2),
+    "glwe_automorphism_key_encrypt_sk": (sh_key("same", None), ALL, True, 2),
+    "glwe_tensor_key_encrypt_sk": (sh_key("same", None), ALL, True, 2),
+    "gglwe_to_ggsw_key_encrypt_sk": (sh_key("same", None), ALL, True, 2),
+    "lwe_switching_key_encrypt_sk": (sh_key(1, 1, True), ALL, True, 8),
+    "lwe_to_glwe_key_encrypt_sk": (sh_key(1, None, True), ALL, True, 8),
+    "glwe_to_lwe_key_encrypt_sk": (sh_key(None, 1, True), ALL, True, 8),
+    "glwe_compressed_encrypt_sk": (sh_glwe, ALL, True, 2),
+    "gglwe_compressed_encrypt_sk": (sh_gglwe, ALL, True, 2),
+    "ggsw_compressed_encrypt_sk": (sh_ggsw, ALL, True, 2),
+    "glwe_from_lwe": (sh_glwe_from_lwe, ALL, True, 8),
+    "lwe_from_glwe": (sh_lwe_from_glwe, ALL, True, 8),
+    "lwe_keyswitch": (sh_lwe_ks, ALL, True, 8),
+    "gglwe_keyswitch": (sh_gglwe_ks, ALL, True, 8),
+    "gglwe_keyswitch_assign": (sh_mat_assign, ALL, True, 8),
+    "gglwe_external_product": (sh_mat_same_rank, ALL, True, 8),
+    "gglwe_external_product_assign": (sh_mat_assign, ALL, True, 8),
+    "ggsw_external_product": (sh_mat_same_rank, ALL, True, 8),
+    "ggsw_external_product_assign": (sh_mat_assign, ALL, True, 8),
+    "ggsw_from_gglwe": (sh_expand, ALL, True, 8),
+    "ggsw_expand_row": (sh_expand, ALL, True, 8),
+    "ggsw_keyswitch": (sh_ggsw_ks, ALL, True, 8),
+    "ggsw_keyswitch_assign": (sh_ggsw_ks_assign, ALL, True, 8),
+    "ggsw_automorphism": (sh_ggsw_ks, ALL, True, 8),
+    "ggsw_automorphism_assign": (sh_ggsw_ks_assign, ALL, True, 8),
+    "atk_automorphism": (sh_mat_same_rank, ALL, True, 8),
+    "atk_automorphism_assign": (sh_mat_assign, ALL, True, 8),
+    "ggsw_rotate_assign": (sh_expand, ALL, True, 2),
+    "glwe_mul_const": (sh_mul_const, ALL, True, 2),
+    "glwe_mul_const_assign": (sh_mul_const_assign, ALL, True, 2),
+})
+
+USES_VMP = {o for o in OPS if o.startswith("vmp_") or any(w in o for w in ("keyswitch", "external_product", "automorphism", "trace", "cmux", "bdd", "from_lwe", "from_glwe", "ggsw_from", "expand", "pack", "relinearize", "cswap"))}
 
 
 AUTO_FUSED = ["glwe_automorphism_add", "glwe_automorphism_sub", "glwe_automorphism_sub_negate"]
@@ -351,15 +565,22 @@ def run(ctx):
         for i in range(n_shapes):
             be = bes[i % len(bes)]
             ns = [x for x in small_n if x >= nmin and (x >= 2 or fam(be) == "ntt120")]
-            if fam(be) == "fft64" and op in USES_VMP:
+            if fam(be) == "fft64" and (op in USES_VMP or op.startswith("glwe_mul_const")):
                 ns = [x for x in ns if x >= 8]        # the FFT64 vmp kernels assert n >= 8
             # two thirds of the shapes at N >= 8, the rest at N < 8 (sub-64-byte limbs)
             n = r.choice([x for x in ns if x >= 8]) if i % 3 != 2 else r.choice([x for x in ns if x < 8] or ns)
             shape = gen(r, False)
+            if op == "glwe_pack":
+                logn = n.bit_length() - 1
+                shape["gap"] = r.range(0, logn)
+                shape["rounds"] = logn - shape["gap"]
             if i < len(bes):                          # boundary class: single-limb operands, once per back end
-                for f in ("size", "asize", "pksize", "bsize"):
+                lo = 2 if "rdnum" in shape else 1      # matrix operands need size > dsize
+                for f in ("size", "asize", "pksize", "bsize", "lsize", "alsize"):
                     if f in shape:
-                        shape[f] = 1
+                        shape[f] = lo
+                if "rdnum" in shape:
+                    shape["rdnum"] = shape["adnum"] = 1 if "adnum" in shape else shape["rdnum"]
                 n = max(n, 8) if i % 2 == 0 else n
             if not runnable:
                 cases.append(dict(op=op, be=be, n=n, shape=shape, mis=0, win=None, kind="tb"))
